@@ -339,6 +339,7 @@ CoreSMTSolver::handleUnsat()
  */
 TPropRes CoreSMTSolver::checkTheory(bool complete, int& conflictC)
 {
+    OPENSMT_VERIF(verif::stopPoint(2));
     // Skip calls to theory solvers
     // (does not seem to be helpful ...)
     if ( !complete
